@@ -246,17 +246,20 @@ Section Backup.
   Definition block_subdirs (ds : list dpath) : list N :=
     isort_by N.compare (fun x => x) (flat_map (fun d => match d with DBlockSub s => [s] | _ => [] end) ds).
 
-  (* blockdir::list_blocks: every sub-directory of d/ (released in name order by the harness) *)
-  Fixpoint list_blocks (subs : list N) (acc : list bytes) (k : option (list bytes) -> prog bres) : prog bres :=
+  (* blockdir::list_blocks: every sub-directory of d/ is listed by its own task (all are
+     issued before any result is looked at; the harness releases them in name order), then
+     the first failure, if any, makes the whole listing fail *)
+  Fixpoint list_blocks (subs : list N) (acc : list bytes) (failed : bool) (k : option (list bytes) -> prog bres)
+    : prog bres :=
     match subs with
-    | [] => k (Some acc)
+    | [] => k (if failed then None else Some acc)
     | s :: subs' =>
         Do (OpList (DBlockSub s)) (fun r =>
           match r with
           | RList _ fs =>
               list_blocks subs'
-                (acc ++ flat_map (fun p => match p with (PBlock c, true) => [c] | _ => [] end) fs) k
-          | _ => k None
+                (acc ++ flat_map (fun p => match p with (PBlock c, true) => [c] | _ => [] end) fs) failed k
+          | _ => list_blocks subs' acc true k
           end)
     end.
 
@@ -286,7 +289,7 @@ Section Backup.
                       Do (OpList DBlocks) (fun r6 =>
                         match r6 with
                         | RList ds3 _ =>
-                            list_blocks (block_subdirs ds3) [] (fun o =>
+                            list_blocks (block_subdirs ds3) [] false (fun o =>
                               match o with
                               | Some ex =>
                                   let w := {| w_band := id; w_entries := []; w_seq := 0; w_hunks := 0;
